@@ -79,3 +79,18 @@ CONFIG["C19"] = {
     "assumptions": COMMON_ASSUMPTIONS + ["compact-size rule: 1 byte <= 252, 3 bytes <= 65535, 5 bytes <= 2^32-1"],
     "counter_floors": {"quick": {"minimality-checked": 50000}, "thorough": {"minimality-checked": 500000}},
 }
+
+CONFIG["C05"] = {
+    "budget_s": {"quick": 120, "thorough": 1500},
+    "floor": {"quick": 8000, "thorough": 300000},
+    "rule": ("a case is a random source type A and target type B (type grammar of C10), a type-directed random program A -> B over all combinators "
+             "(iden unit injl injr take drop comp case assertl assertr pair disconnect witness fail word) and the Core jets that have a harness reference function, "
+             "with pointer-shared and structurally duplicated sub-expressions, principal types from the harness's own inference (root pinned to A -> B), witness "
+             "values projected to the principal types and realised through mixed value histories; three inputs (random, all-left, all-right), each realised through a random "
+             "history; the plain program plus up to three placement variants (output shifted by 1..7 bits, input shifted by 1..7 bits, frames re-used after being filled with ones). "
+             "Oracle: big-step evaluator on abstract values; verdict kinds must match (value / assertion with the hidden CMR / fail entropy / jet failure); hooks: no frame access "
+             "outside its frame, high-water marks within bounds. Non-trivial: >= 4 distinct nodes executed and B has non-zero width. Distinct: distinct (types, program) renderings."),
+    "assumptions": COMMON_ASSUMPTIONS + ["jet semantics for the modelled Core jets are re-implemented from the C reference's documented behaviour (harness/src/mjets.rs); all other jets are out of C05's scope and covered by C06/C14"],
+    "counter_floors": {"quick": {"executed.case": 1000, "executed.disconnect": 500, "variant.shift-input": 2000, "variant.dirty-frames": 2000, "verdict.assert": 100, "verdict.jet-failed": 100},
+                       "thorough": {"executed.case": 50000, "executed.disconnect": 20000}},
+}
